@@ -540,13 +540,14 @@ type SpecFile struct {
 	Guards    []*Guarded
 	Consts    map[string]*big.Int
 	Trusted   bool
+	Immutable []string // Type.field: assigned only during construction, survives havoc-all (assumption)
 }
 
 var clauseKeywords = map[string]bool{
 	"func": true, "interface": true, "functype": true, "spec": true, "axiom": true, "lemma": true,
 	"ghostfield": true, "guarded_by": true, "monitor": true, "tags": true, "requires": true, "ensures": true,
 	"modifies": true, "loop": true, "invariant": true, "decreases": true, "ghost": true, "trusted": true,
-	"inline": true, "pure": true, "ghost_at_return": true, "call": true, "const": true, "nosafety": true, "opt": true, "decoder": true, "encoder": true, "progress": true, "monitor_assume": true,
+	"inline": true, "pure": true, "ghost_at_return": true, "call": true, "const": true, "nosafety": true, "opt": true, "decoder": true, "encoder": true, "progress": true, "monitor_assume": true, "immutable": true,
 }
 
 // logicalLines strips the comment prefix and joins continuation lines.
@@ -886,8 +887,17 @@ func ParseSpecFile(path, pkg string, isGo, trusted bool) (*SpecFile, error) {
 				cur.Asserts[k] = append(cur.Asserts[k], &Clause{Kind: "ghost", LHS: lhs, E: rhs, Text: body})
 				continue
 			}
+			if strings.HasPrefix(body, "assume ") {
+				e, err := ParseExpr(strings.TrimPrefix(body, "assume "))
+				if err != nil {
+					return nil, fail(i, "%v", err)
+				}
+				k := strings.TrimSpace(parts[0])
+				cur.Asserts[k] = append(cur.Asserts[k], &Clause{Kind: "assume", E: e, Text: strings.TrimPrefix(body, "assume ")})
+				continue
+			}
 			if !strings.HasPrefix(body, "assert") {
-				return nil, fail(i, "only 'assert' or 'ghost' supported in call clauses")
+				return nil, fail(i, "only 'assert', 'assume' or 'ghost' supported in call clauses")
 			}
 			tags, b2 := parseTagsPrefix(strings.TrimPrefix(body, "assert"))
 			e, err := ParseExpr(b2)
@@ -960,6 +970,10 @@ func ParseSpecFile(path, pkg string, isGo, trusted bool) (*SpecFile, error) {
 					return nil, fail(i, "%v", err)
 				}
 				cur.Ensures = append(cur.Ensures, &Clause{Kind: "ensures", Tags: tags, E: e, Text: body})
+			}
+		case "immutable":
+			for _, f := range splitTop(rest, ',') {
+				sf.Immutable = append(sf.Immutable, strings.TrimSpace(f))
 			}
 		case "ghostfield":
 			f := strings.Fields(rest)
